@@ -29,6 +29,8 @@ var c13Kinds = []c13Kind{
 	{decl.TStrings, []string{"a", "b=c", `"q z"`}, nil},
 	{decl.TInts, []string{"1", "-2", "3"}, nil},
 	{decl.TMapSS, []string{"k:v", "k:w:z", "j:1"}, nil},
+	{decl.TMapSS, []string{`k:say:"hi"`, `j:{"a":"b"}`, `k:a":"b`}, nil},
+	{decl.TString, []string{"s" + strings.Repeat("x", 70000), "t", "u"}, nil},
 	{decl.TMapSI, []string{"k:1", "k:2", "j:-3"}, nil},
 	{decl.TMapSS, []string{`k:"v w"`, `k:"http://h:80/x"`, `j:"a:b:c"`}, []string{"k:v w", "k:http://h:80/x", "j:a:b:c"}},
 	{decl.TMapSI, []string{`k:"1"`, "k:2", `j:"-3"`}, []string{"k:1", "k:2", "j:-3"}},
@@ -258,7 +260,7 @@ func init() {
 		ShardDepth: 2,
 		Body:       body,
 		Rule: "declaration whose names cross (A's long name = B's field name = C's ini-name up to case; the same field name in the parser, a namespaced group, a command and a sub-subcommand; short-only, long-only and no-ini options; an ini-name inside a command's subgroup) " +
-			"x 15 option types / value notations (incl. map values written in INI quoting, some containing colons, against their unquoted command-line equivalent) x 17 section spellings (incl. a command whose name has upper-case letters: command names are matched exactly, group descriptions case-insensitively) (global, group description in three casings, command, command.group in two casings, sub-subcommand path, wrong casings and unknown paths) x 41 entry names (every naming of every option in several casings, namespaced long names, unknown) " +
+			"x 17 option types / value notations (incl. map values containing :\" in the middle, a 70000-byte value) (incl. map values written in INI quoting, some containing colons, against their unquoted command-line equivalent) x 17 section spellings (incl. a command whose name has upper-case letters: command names are matched exactly, group descriptions case-insensitively) (global, group description in three casings, command, command.group in two casings, sub-subcommand path, wrong casings and unknown paths) x 41 entry names (every naming of every option in several casings, namespaced long names, unknown) " +
 			"x 1..3 repeated entries x normal / as-defaults mode x {fresh parser, parser that has already read a file naming the same option by another of its names (a later read replaces, like a later command line)}; oracle: (a) the documented priority ini-name > field > namespaced long > short selects the option, unknown names/sections are errors, (b) differential: a fresh parser given the equivalent --name=value flags must end in the same option struct; " +
 			"distinct = distinct (type, section, name, repetitions, error class, options touched)",
 		Assumptions:  []string{"values without edge blanks", "a flag entry 'name = false' has no command-line equivalent and is not used"},
